@@ -2,6 +2,15 @@
 pub use toml_edit::verif_hooks as hooks;
 pub use toml_edit::verif_hooks::Outcome;
 
+/// M7 (DESIGN.md 2.3): `core::str::from_utf8` -> refmodel::models::from_utf8 (plain validating
+/// loop; std's validator is trusted, its word-at-a-time fast path on symbolic slice bounds is what
+/// CBMC cannot finish).  Applied to every harness that reaches `trivia::from_utf8_unchecked`
+/// (whose debug branch is `from_utf8(bytes).expect(..)`), `try_map(from_utf8)` or
+/// `error::translate_position`.
+pub fn stub_from_utf8(v: &[u8]) -> Result<&str, std::str::Utf8Error> {
+    refmodel::models::from_utf8(v)
+}
+
 /// `N` symbolic bytes, all ASCII, with a symbolic length `<= N`.
 /// Returns the buffer and the length; the caller slices.
 pub fn any_ascii<const N: usize>() -> ([u8; N], usize) {
@@ -55,6 +64,7 @@ macro_rules! lang_kernel {
     ($harness:ident, $gen:ident, $n:expr, $unwind:expr, $hook:ident, $r:path) => {
         #[kani::proof]
         #[kani::unwind($unwind)]
+        #[kani::stub(core::str::from_utf8, stub_from_utf8)]
         pub fn $harness() {
             let (buf, len) = $gen::<$n>();
             let s = &buf[..len];
@@ -86,6 +96,7 @@ macro_rules! lang_kernel_total {
     ($harness:ident, $gen:ident, $n:expr, $unwind:expr, $hook:ident, $r:path) => {
         #[kani::proof]
         #[kani::unwind($unwind)]
+        #[kani::stub(core::str::from_utf8, stub_from_utf8)]
         pub fn $harness() {
             let (buf, len) = $gen::<$n>();
             let s = &buf[..len];
@@ -116,6 +127,7 @@ macro_rules! lang_kernel_ascii_str {
     ($harness:ident, $gen:ident, $n:expr, $unwind:expr, $hook:ident, $r:path, $skip:expr) => {
         #[kani::proof]
         #[kani::unwind($unwind)]
+        #[kani::stub(core::str::from_utf8, stub_from_utf8)]
         pub fn $harness() {
             let (buf, len) = $gen::<$n>();
             let s = &buf[..len];
